@@ -185,14 +185,16 @@ func init() {
 	}}
 	properties["C07"] = propDef{run: func(c *Ctx) *PropertyRun {
 		return pr("other", "Decided: (R11) parent links mirror child links — a sentence of the statement itself: every child-link store in the three trees is paired with the parent-link store on the same path; (R21) the rebalancing machinery is wired on every path: red-black Put/Remove pass insertCase1/deleteCase1, the case chains hand over without dropping out; AVL balance factors are written only by the fix/rotation family, direct link changes report 'height changed', every reported change is answered by putFix/removeFix on the frame's own link and passed up, rotations are stored back; B-tree nodes that gained an entry go to split, nodes that lost one go to rebalance (or are a lending sibling / the collapsing root), borrow and merge move children with entries; (R32) insert/delete shifts and the split partition keep their indices consistent (no entry or child lost or duplicated); (R35) no path overwrites a field with a constant and then reads it back as the value to transfer (the colour hand-over `sibling.color = parent.color; parent.color = black` in the wrong order) — zero sites expected, guarded by a positive control. Not decided: every numeric claim — comparator-call bounds, height bounds, min/max occupancy, equal leaf depth, colour invariants; these quantify over reachable shapes and no sound static argument in reach bounds them."+notBehaviour,
-			c.rule("R21", ruleR21), c.rule("R21b", ruleR21b), c.rule("R11", ruleR11), c.rule("R32", ruleR32), c.rule("R35", ruleR35), c.rule("R37", ruleR37), controlFor(c, "R35"))
+			c.rule("R21", ruleR21), c.rule("R21b", ruleR21b), c.rule("R42", ruleR42), c.rule("R11", ruleR11), c.rule("R32", ruleR32), c.rule("R35", ruleR35), c.rule("R37", ruleR37), controlFor(c, "R35"))
 	}}
 	properties["C08"] = propDef{run: func(c *Ctx) *PropertyRun {
 		return pr("other", "Decided: (R14) all 18 iterator types follow the cursor protocol: index cursors step exactly when inside the bound and saturate at n / -1, report true exactly when the new index is in 0..n-1, Begin/End store -1/n, linked cursors keep the element pointer in step, wrappers forward, tree cursors start at leftmost/rightmost and saturate at their sentinels, First ≡ Begin;Next, Last ≡ End;Prev, NextTo/PrevTo are the canonical search loop over (Index|Key, Value); (R10) Next↔Prev, First↔Last, NextTo↔PrevTo mirror images; (R11) the Parent links tree cursors climb; (R1) Index/Key/Value write nothing, movers write only the iterator; (R19b-index) the ring iterator's Value() reads the slot (start+index) % capacity — the same slot Values() lists at that position. Not decided: that the element reached at position i is Values()[i] for the other containers; B-tree climb/descend index logic; heap level-sort."+notBehaviour,
 			c.rule("R14", ruleR14), c.rule("R29", ruleR29), ringIndexRule(c),
 			prefixFilter(c.rule("R10", ruleR10), "R10", "MIRROR: iterator Next/Prev, First/Last, NextTo/PrevTo", 32, "R10:trees/redblacktree.Iterator", "R10:trees/avltree.Iterator", "R10:trees/avltree.Node", "R10:lists/", "R10:maps/", "R10:queues/", "R10:sets/", "R10:stacks/", "R10:trees/binaryheap", "R10:trees/btree.Iterator"),
 			prefixFilter(c.rule("R11", ruleR11), "R11", "PARENTLINK: the links tree cursors climb", 26, "R11:"),
-			filter(c.rule("R1", ruleR1), "R1", "PURE: iterator methods write only the iterator", 150, func(o Obligation) bool { return strings.Contains(o.Key, "Iterator).") }))
+			filter(c.rule("R1", ruleR1), "R1", "PURE: iterator methods write only the iterator", 150, func(o Obligation) bool { return strings.Contains(o.Key, "Iterator).") }),
+			prefixFilter(c.rule("R22", ruleR22), "R22", "HEAP: Values() is filled from the heap's own iterator, position by position (so Value() at position i is Values()[i])", 1, "R22:trees/binaryheap.Heap.Values"),
+			prefixFilter(c.rule("R41", ruleR41), "R41", "HEAP: the iterator orders a level with the heap's own comparator", 1, "R41:trees/binaryheap.Iterator.level-order"))
 	}}
 	properties["C09"] = propDef{run: func(c *Ctx) *PropertyRun {
 		return pr("other", "Decided in full as a who-may-call / pairing property: (R15a) the order list is mutated only by Append under 'key not in table', Remove(IndexOf(key)) under 'key in table' together with delete(table,key), and Clear together with clearing the table — so an existing key is never moved and a re-inserted key goes last; (R15b) table and list change on exactly the same paths; (R15c) every enumerator (Keys, Values, iterator, Each…, String, ToJSON) walks the list and never ranges over the Go map; (R15w) the two fields are assigned only in constructors/Clear; of the order list itself (a doubly linked list): (R33) its index walks keep pointer and counter in step and land on the requested index from either end, (R25) next/prev are stored in pairs. Not decided: the rest of doublylinkedlist.Append/Remove/IndexOf (C03's remainder). Inherited (substrate): the doubly linked list that keeps the order — next/prev pairing, index walks, size counter, index guards."+notBehaviour,
